@@ -400,6 +400,11 @@ func runPath(env *Env, ld *Loaded, ex *Explorer, it WorkItem, funcs map[string]s
 				}
 			}
 		}()
+		defer func() {
+			if in.sched != nil {
+				in.sched.kill() // release the host goroutines of the interpreted goroutines of this path
+			}
+		}()
 		in.initPackages(fn.Pkg)
 		in.call(fn, []Value{ex.tb.Const(64, uint64(spec.Cfg))})
 	}()
